@@ -7,7 +7,7 @@
    RNA false) for all operands, every RoundingMode discriminant 0..4 and every incoming status word.  The callees themselves
    are covered by the correspondence streams of C06 (every to-integer entry point), not by a layer-I theorem. *)
 From Coq Require Import ZArith Lia Bool List ZifyBool.
-From DV Require Import Base Bid OpsConv.
+From DV Require Import Base Bid BidProofs OpsArith OpsCmp OpsMisc OpsConv.
 From DVI Require Import ImplLib ImplGen ImplCommon.
 Import ListNotations.
 Open Scope Z_scope.
@@ -90,3 +90,58 @@ Proof.
 Qed.
 Print Assumptions I_bid128_llround.
 (* END bid128_llround *)
+
+(* BEGIN bid128_fdim *)
+(* bid128_fdim over abstract bid128_quiet_greater / bid128_sub (bound by name).  IF the comparison callee meets the clause
+   proved for it by group G (m_cmp ... 1) and the subtraction callee returns an outcome of m_sub with the status word or-ed,
+   THEN fdim returns an outcome of m_fdim (OpsMisc.v) for all operand words, every mode discriminant and status word:
+   NaN operands go to the subtraction (whose NaN outcomes are those of m_fdim: sub_nan), x > y goes to the subtraction,
+   otherwise the canonical +0E0 with the status word untouched (the flags of the comparison are discarded). *)
+Lemma nan_test w0 w1 : in_u64 w0 -> in_u64 w1 ->
+  ((Z.land w1 0x7c00000000000000) =? 0x7c00000000000000) = is_nan (decode (pat w0 w1)).
+Proof.
+  intros H0 H1. rewrite decode_words by assumption. unfold in_u64 in *.
+  open1 w0 w1 G; cbn [is_nan]; lia.
+Qed.
+Lemma sub_nan md x y : is_nan (decode x) || is_nan (decode y) = true -> m_sub md x y = nan_outcomes [decode x; decode y].
+Proof.
+  unfold m_sub, add_dec. destruct (decode x) as [sx cx qx|sx|sx gx px], (decode y) as [sy cy qy|sy|sy gy py];
+    cbn [is_nan orb neg_dec set_sign sign_of]; intros E; try discriminate E; reflexivity.
+Qed.
+Definition spec_gt (f : Z -> Z -> Z -> Z -> Z -> bool * Z) : Prop :=
+  forall x0 x1 y0 y1 st, in_u64 x0 -> in_u64 x1 -> in_u64 y0 -> in_u64 y1 -> in_u32 st ->
+    let '(r, st') := f x0 x1 y0 y1 st in
+    exists fl, m_cmp (pat x0 x1) (pat y0 y1) 1 = [([b2z r], fl)] /\ st' = Z.lor st fl.
+Definition spec_sub (f : Z -> Z -> Z -> Z -> Z -> Z -> Z * Z * Z) : Prop :=
+  forall x0 x1 y0 y1 md st, in_u64 x0 -> in_u64 x1 -> in_u64 y0 -> in_u64 y1 -> 0 <= md <= 4 -> in_u32 st ->
+    let '(r0, r1, st') := f x0 x1 y0 y1 md st in
+    in_u64 r0 /\ in_u64 r1 /\ exists fl, In ([pat r0 r1], fl) (m_sub (md_of md) (pat x0 x1) (pat y0 y1)) /\ st' = Z.lor st fl.
+Arguments i_bid128_fdim {_ _} _ _ _ _ _ _.
+Theorem I_bid128_fdim fgt fsub : spec_gt fgt -> spec_sub fsub ->
+  forall x0 x1 y0 y1 md st, in_u64 x0 -> in_u64 x1 -> in_u64 y0 -> in_u64 y1 -> 0 <= md <= 4 -> in_u32 st ->
+  let '(r0, r1, st') := i_bid128_fdim (a_bid128_quiet_greater := fgt) (a_bid128_sub := fsub) x0 x1 y0 y1 md st in
+  in_u64 r0 /\ in_u64 r1 /\ exists fl, In ([pat r0 r1], fl) (m_fdim (md_of md) (pat x0 x1) (pat y0 y1)) /\ st' = Z.lor st fl.
+Proof.
+  intros Sgt Ssub x0 x1 y0 y1 md st Hx0 Hx1 Hy0 Hy1 Hmd Hst.
+  specialize (Sgt x0 x1 y0 y1 st Hx0 Hx1 Hy0 Hy1 Hst). specialize (Ssub x0 x1 y0 y1 md st Hx0 Hx1 Hy0 Hy1 Hmd Hst).
+  unfold i_bid128_fdim, i_d128_new, m_fdim. cbv zeta.
+  rewrite (nan_test x0 x1 Hx0 Hx1), (nan_test y0 y1 Hy0 Hy1).
+  destruct (fgt x0 x1 y0 y1 st) as [r stc]. destruct Sgt as (flc & Ec & _).
+  destruct (fsub x0 x1 y0 y1 md st) as [[s0 s1] sts].
+  set (dx := decode (pat x0 x1)) in *. set (dy := decode (pat y0 y1)) in *.
+  destruct (is_nan dx || is_nan dy) eqn:EN.
+  - (* a NaN operand: the subtraction's outcome *)
+    replace (negb (is_nan dx) && negb (is_nan dy) && negb r) with false
+      by (destruct (is_nan dx), (is_nan dy); cbn in EN |- *; try reflexivity; discriminate EN).
+    pose proof (sub_nan (md_of md) (pat x0 x1) (pat y0 y1) EN) as SN. fold dx dy in SN. rewrite <- SN. exact Ssub.
+  - apply orb_false_elim in EN. destruct EN as [ENx ENy]. rewrite ENx, ENy. cbn [negb andb].
+    unfold m_cmp in Ec. fold dx dy in Ec. cbn [pred_rels existsb] in Ec.
+    assert (Er : r = rel_eqb (cmp_dec dx dy) RGt).
+    { injection Ec as Ec _. destruct r, (cmp_dec dx dy); cbn in Ec |- *; congruence. }
+    destruct (cmp_dec dx dy) eqn:EC; cbn [rel_eqb] in Er; subst r; cbn [negb].
+    3: exact Ssub.
+    all: (split; [unfold in_u64; lia|]); (split; [unfold in_u64; lia|]); exists 0; (split; [|symmetry; apply Z.lor_0_r]);
+         left; reflexivity.
+Qed.
+Print Assumptions I_bid128_fdim.
+(* END bid128_fdim *)
